@@ -395,8 +395,9 @@ func (r *histRun) call(op string) (err error) {
 
 type histVerdict struct {
 	key, what string
-	writes    int  // transport Write calls of the run
-	reached   bool // a Close was sent or the failure fired, and a later call was judged
+	writes    int    // transport Write calls of the run
+	wire      []byte // the final wire of a run that ended with a clean verdict (judged by the delivery clause)
+	reached   bool   // a Close was sent or the failure fired, and a later call was judged
 	unjudged  string
 }
 
@@ -550,6 +551,7 @@ func evalHistory(cs histCase) (v histVerdict) {
 		return fail("wire-invalid", last, fmt.Sprintf("at the end of the history the frames on the wire violate the sender rules: %v", serr))
 	}
 	v.writes = t.nWrites
+	v.wire = t.wire
 	return v
 }
 
@@ -682,6 +684,9 @@ func judgeHistory(c *hl.Ctx, cs histCase) histVerdict {
 	if v.unjudged != "" {
 		c.Add("history_unjudged_reader_reply_missing", 1)
 		return v
+	}
+	if v.key == "" {
+		deliveryOfHistory(c, &v, cs.Cfg, cs.id())
 	}
 	if v.key != "" {
 		c.Violation(v.key, v.what, cs)
